@@ -20,6 +20,7 @@ RULE = (
     "socketpair fed by a writer thread} x read schedule (drawn list of short-read sizes >= 1, cycled; plus the exhaustive "
     "set first-read in {1,2,3} x second in {1,2,5}) x all parse entry points of the generic integration (flat, grouped, "
     "to_graph) and rdflib flat for RDF 1.1 content. Oracle: result == result from BytesIO(data). "
+    "One case in four uses a stream larger than the io buffer sizes (8 KiB / 64 KiB) with generous read sizes as well. "
     "non-trivial = schedule whose first read is < 3 bytes or whose reads split a length varint or a frame; "
     "distinct by case hash."
 )
@@ -43,6 +44,13 @@ def case_strategy(kinds):
             st.lists(st.integers(1, 12), min_size=1, max_size=8),
             st.sampled_from([[1], [2], [1, 2], [2, 1], [3], [1, 1, 5], [2, 5], [1, 2, 3, 4, 5, 6, 7], [7], [64]]),
         ))
+        if draw(st.integers(0, 3)) == 0 and src["source"] == "pyjelly" and src["statements"]:
+            # a stream larger than the io buffer sizes (8 KiB, 64 KiB), served by generous reads as well
+            n = draw(st.sampled_from([8200, 9000, 20000, 70000]))
+            k = draw(st.integers(0, len(src["statements"]) - 1))
+            src["statements"][k][2] = ["lit", "L" * n, None, None]
+            sched = draw(st.sampled_from([[1 << 20], [8192], [8191], [8193], [65536], [3, 1 << 20], [1, 1, 1, 1 << 20],
+                                          [1, 1 << 20], [2, 1 << 20], [4096], sched]))
         return {"src": src, "kind": kind, "schedule": sched,
                 "entry": draw(st.sampled_from(["flat", "flat", "grouped", "to_graph", "rdflib_flat"]))}
     return strat()
@@ -68,13 +76,20 @@ def body(case, acc):
         entry = "flat"
     try:
         base = run_entry(entry, io.BytesIO(data))
-    except Exception as exc:  # noqa: BLE001
-        raise HarnessError(f"baseline parse failed: {exc!r}") from exc
+    except Exception:  # noqa: BLE001
+        # the stream does not even parse from BytesIO: C04's / C01's subject, no chunking effect to observe
+        if acc is not None:
+            acc.count("baseline_unparsable_skipped")
+        return None
     sched = case["schedule"]
     if acc is not None:
         from vlib import wire
 
         labels = ["kind_" + case["kind"], "entry_" + entry, "delimited" if delimited else "non_delimited"]
+        if len(data) > 8192:
+            labels.append("stream_gt_8KiB")
+        if len(data) > 65536:
+            labels.append("stream_gt_64KiB")
         nt = False
         if case["kind"] in ("dribble_raw", "buffered_dribble", "pipe", "socket", "gzip_buffered_dribble"):
             if sched[0] < 3:
